@@ -41,6 +41,8 @@ CLAUSES = {
     "7": "the send window after acceptance is not min(configured or overridden max_send, peer Receive Maximum)",
     "8": "the v5 CONNACK does not announce the limits in force (or the keep-alive imposed below the client's)",
     "9": "a probe above a limit in force was handled, or a probe within all limits ended the connection",
+    "11": "C12/C19: a burst of unacknowledged QoS 1 publishes within the announced Receive Maximum was refused, or a "
+          "burst over it was not answered with DISCONNECT 0x93 (the limit in force is not the announced one)",
     "10": "C15: the DISCONNECT refusing a PUBLISH over a limit does not carry the code dedicated to that limit "
           "(packet too large 0x95, QoS not supported 0x9B)",
 }
@@ -255,6 +257,35 @@ def py_oracle(case, obs, codes=False):
             break
         st = t[t.index(999) + 1:]
         pf = first_frame(bytes(op[1:]))
+        if v5 and pf not in (None, "bad") and pf[2] < len(op) - 1:
+            # a burst in one write: k QoS 1 publishes to the held topic "h" with distinct ids, nothing else -- the
+            # Receive Maximum in force is the announced one: within it nobody is refused, the first publish over it
+            # is answered with DISCONNECT 0x93 (clause 11)
+            rest, ids, okb = bytes(op[1:]), [], True
+            while rest and okb:
+                fr1 = first_frame(rest)
+                if fr1 in (None, "bad") or fr1[0] != 0x32 or fr1[1][:3] != b"\x00\x01h" or len(fr1[1]) != 6:
+                    okb = False
+                    break
+                ids.append(struct.unpack(">H", fr1[1][3:5])[0])
+                rest = rest[fr1[2]:]
+            if okb and len(ids) >= 2 and len(set(ids)) == len(ids) and 0 not in ids and lim["qos"] >= 1 \
+                    and (not lim["max_in"] or lim["max_in"] >= 8):
+                w = bytes(t[:t.index(999)])
+                refused = False
+                while w:
+                    wf = first_frame(w)
+                    if wf in (None, "bad"):
+                        break
+                    if wf[0] == 0xE0:
+                        refused = (wf[1][0] if wf[1] else 0)
+                        break
+                    w = w[wf[2]:]
+                if len(ids) <= lim["rm"] and (refused is not False or st[2] != 0):
+                    return "0,11"
+                if len(ids) > lim["rm"] and refused != 147:
+                    return "0,11"
+            break
         if pf in (None, "bad") or pf[2] != len(op) - 1 or (pf[0] & 0xf0) != 0x30:
             break
         tb, body, _ = pf
